@@ -191,15 +191,24 @@ def term_name(t):
     return s[4:] if s.startswith("cls:") else None
 
 
+_pairs_cache = {}
+
+
 def closure_axioms(c, relevant):
-    """upward-closure facts for a symbolic class constant c over the `relevant` known classes (quantifier free)"""
-    ax = []
-    rel = [_canon(r) for r in relevant]
-    for a in rel:
-        for b in rel:
-            if a != b and is_subclass(a, b):
-                ax.append(z3.Implies(sub(c, term(a)), sub(c, term(b))))
-    return ax
+    """upward-closure facts for a symbolic class constant c over the `relevant` known classes (quantifier free);
+    only direct base edges are needed (the closure follows by chaining)"""
+    key = tuple(relevant)
+    pairs = _pairs_cache.get(key)
+    if pairs is None:
+        rel = [_canon(r) for r in relevant]
+        rs = set(rel)
+        pairs = []
+        for a in rel:
+            for b in _bases.get(a, []):
+                if b in rs:
+                    pairs.append((term(a), term(b)))
+        _pairs_cache[key] = pairs
+    return [z3.Implies(sub(c, ta), sub(c, tb)) for ta, tb in pairs]
 
 
 def concrete_facts(relevant):
